@@ -409,7 +409,7 @@ func famWarnings(r *fw.Rng, p Poison) Built {
 		names = append(names, nm)
 		lib.f("pub fn %s() -> int { %d }\n", nm, i)
 	}
-	// (a module without globals has an empty initialiser, which the VM cannot call: not a C14 matter)
+	// (a module without globals used to have an empty initialiser, which the VM could not call)
 	lib.f("let lib_state = 0;\nfn private0() {}\nfn private1() {}\nfn main() {}\n")
 	src["lib"] = lib.String()
 	b.f("import { %s } from lib;\n", strings.Join(names, ", "))
